@@ -49,6 +49,9 @@ def add(rep, idx):
     check_refusal(rep, "C17.1", c, "add(): an explicit offset must be a multiple of data_width // granularity (whole bus words)",
                   "offset is not None and offset % (self.data_width // self.granularity) != 0", "ValueError")
     check_refusal(rep, "C17.1", c, "add(): a register object can be added only once", "id(reg) in self._registers", "ValueError")
+    from .common import closed_refusals
+    closed_refusals(rep, "C17.1", c, "add() refuses nothing but the documented cases (placement is checked when the map is built)",
+                    extra=["self._frozen"])
     st = c.stores.get(ir.show(c.parse("self._registers[id(reg)]")))
     want = c.parse("(reg, (*self._scope_stack, name), offset)")
     rep.check(st is not None and st[0] == want, "C17.1", site, "the entry records the register, its full scope path and its offset",
